@@ -366,6 +366,21 @@ func (w *lcWorld) exec(op Op) {
 				w.trace = append(w.trace, fmt.Sprintf("Expire(h%d %s)", op.H%len(w.handles), h.name))
 			}
 		}
+	case "ExpireSoon":
+		// a document that expires in a second, written through any open handle: the bucket's expiry
+		// timer is armed and fires later, whatever has happened to that handle by then
+		if len(w.handles) > 0 {
+			h := w.handles[op.H%len(w.handles)]
+			st := w.stores[h.name]
+			if st != nil && st.inc == h.inc && st.loaded && !h.closed {
+				safely(func() {
+					if ds := h.b.DefaultDataStore(); ds != nil {
+						_ = ds.SetRaw("soon", nowSec()+1, nil, []byte("x"))
+					}
+				})
+				w.trace = append(w.trace, fmt.Sprintf("ExpireSoon(h%d %s)", op.H%len(w.handles), h.name))
+			}
+		}
 	case "Idle":
 		// nobody calls into rosmar for a while: whatever is open or kept in memory stays as it is
 		time.Sleep(time.Duration(op.Amt) * time.Millisecond)
@@ -821,6 +836,76 @@ func TestC13Idle(t *testing.T) {
 				st.Violations++
 			})
 			rt.Fatalf("property C13 violated (replay %s):%s\n  history: %s", replayPath("C13", "TestC13Idle"), devText(ds), strings.Join(w.trace, "; "))
+		}
+	})
+}
+
+// TestC13Child: lifecycle histories with documents that expire a second after they were written,
+// each history in a process of its own: closing a handle must not turn the bucket's later expiry
+// run into a panic (which would take every other handle and the in-memory data with it).
+func TestC13Child(t *testing.T) {
+	st := statsFor("C13", "TestC13Child")
+	st.Rule = "lifecycle histories of TestC13 (same model and probes) run in a child process each: 3-8 generated steps among which 1-2 writes of a document that expires one second later through any open handle, then 2.6 s of silence (the expiry timer fires), then 1-3 more steps; the child must not die (a panic on rosmar's timer goroutine is reported with its stack) and every probe must hold; non-trivial = a handle was closed between the write of the expiring document and its expiry while the store stayed alive; distinct by the sequence of <op, outcome>"
+	if replayMode() {
+		rp := loadReplay("TestC13Child")
+		if rp == nil {
+			t.Skip("replay file is for another test")
+		}
+		res, err := runShutdownChild(shutCase{Kind: "lifecycle", Shutdown: "Close", Steps: rp.Steps})
+		if err != nil {
+			t.Fatalf("infrastructure: %v", err)
+		}
+		st.Case(1, true, func() any { return res.Log })
+		if len(res.Devs) > 0 {
+			t.Fatalf("property C13 violated by replay:%s", devText(res.Devs))
+		}
+		return
+	}
+	var once sync.Once
+	rapid.Check(t, func(rt *rapid.T) {
+		var steps []Op
+		n1 := rapid.IntRange(3, 8).Draw(rt, "before")
+		soonAt := rapid.IntRange(1, n1-1).Draw(rt, "soonAt")
+		closedAfter := false
+		for i := 0; i < n1; i++ {
+			if i == soonAt || (i > soonAt && chance(rt, 15, "soon2")) {
+				steps = append(steps, Op{K: "ExpireSoon", H: rapid.IntRange(0, 7).Draw(rt, "soon.h")})
+			}
+			op := genLcStep(rt, 0)
+			if i < soonAt && op.K != "Open" && chance(rt, 60, "openfirst") {
+				op = Op{K: "Open", Key: pick(rt, lcNames, "name"), Path: pick(rt, []string{"mem", "mem2", "d1"}, "url"), Amt: 0}
+			}
+			closedAfter = closedAfter || (i >= soonAt && (op.K == "Close" || op.K == "CloseAndDelete"))
+			steps = append(steps, op)
+		}
+		steps = append(steps, Op{K: "Idle", Amt: 2600})
+		n2 := rapid.IntRange(1, 3).Draw(rt, "after")
+		for i := 0; i < n2; i++ {
+			steps = append(steps, genLcStep(rt, 0))
+		}
+		res, err := runShutdownChild(shutCase{Kind: "lifecycle", Shutdown: "Close", Steps: steps})
+		if err != nil {
+			rt.Fatalf("INFRA: %v", err)
+		}
+		st.Case(fnvString(strings.Join(res.Log, ";")+fmt.Sprint(len(steps))), closedAfter, func() any { return res.Log })
+		var ds []Deviation
+		for _, d := range res.Devs {
+			if _, ok := tolerated("C13", d); ok {
+				continue
+			}
+			for _, p := range d.Props {
+				if p == "C13" {
+					ds = append(ds, d)
+					break
+				}
+			}
+		}
+		if len(ds) > 0 {
+			once.Do(func() {
+				saveReplay(&Replay{Property: "C13", Test: "TestC13Child", Steps: steps, Expect: ds})
+				st.Violations++
+			})
+			rt.Fatalf("property C13 violated (replay %s):%s\n  history: %s", replayPath("C13", "TestC13Child"), devText(ds), strings.Join(res.Log, "; "))
 		}
 	})
 }
